@@ -202,7 +202,14 @@ func runC07(r *mon.Run) {
 		"values, non-negative coefficient, valid form, exponent 0 for QuoInteger. distinct_nontrivial = distinct cases whose exact " +
 		"result needed rounding, was subnormal or overflowed (as classified by the reference model), plus the transcendental cases."
 	r.Assumptions = []string{"only the fit is judged here, not the value (C01/C09/C10/C11/C12 judge values)"}
-	r.Serial("pinned", func(t *mon.T) { pinnedArith(t, "fit") })
+	r.Serial("pinned", func(t *mon.T) {
+		pinnedArith(t, "fit")
+		// fixed: Log10(1.001) at p=3 MinExponent 0 returned 4.34E-4 (exponent below Etiny)
+		x, _ := dec.Parse("1001E-3")
+		transCase(t, "fit", "log10", dec.Ctx{P: 3, Emin: 0, Emax: 4, Mode: "half_up"}, x, dec.D{})
+		x2, _ := dec.Parse("1000000000000002648720806956E-27")
+		transCase(t, "fit", "log10", dec.Ctx{P: 20, Emin: -1, Emax: 21, Mode: "half_down"}, x2, dec.D{})
+	})
 	r.Parallel("fit", r.N(400000, 40000000), func(t *mon.T) {
 		if t.Rng.Chance(1, 5) {
 			// carry family: quotients/sums/roundings just below a power of ten
